@@ -243,11 +243,23 @@ fn test(ctx: &Ctx, case: &LiteCase, st: &mut Stats) -> Verdict {
             _ => {
                 // No answer at all (planning/execution error or panic): whether every accepted
                 // statement gets an executable plan is C17's question, not this one's.
-                st.class(&match panics.first() {
-                    Some(p) => format!("no-answer:{}", panic_sig(p)),
-                    None => "no-answer:error".to_string(),
-                });
-                Verdict::Discard("risinglight returned an error (executability is decided by C17)")
+                match no_answer(&out, &panics) {
+                    Ok(class) => {
+                        st.class(&class);
+                        Verdict::Discard("risinglight returned an error (executability is decided by C17)")
+                    }
+                    Err(sig) => fail(
+                        sig,
+                        format!(
+                            "SQLite answers, risinglight does not, and the failure is not one of planning: {} {:?}\n  risinglight: {}\n  sqlite:      {}\n  engine: {}",
+                            out.brief(),
+                            panics,
+                            case.sql,
+                            case.lite_sql,
+                            if case.db.disk.is_some() { "disk" } else { "memory" }
+                        ),
+                    ),
+                }
             }
         };
         close(&case.db, &db).await;
